@@ -295,7 +295,7 @@ def clashing_names(seed=0):
     mq = MetricEvaluator(2, awkward, log=os.path.join(tmp, "mq.csv"))
     oq_obs = SigmaZ()
     oq_obs.name = "sigma_z, site average"
-    oq = ObservableEvaluator(3, [oq_obs, SigmaZ()], num_samples=8, burn_in=1, steps=1, log=os.path.join(tmp, "oq.csv"))
+    oq = ObservableEvaluator(3, iter([oq_obs, SigmaZ()]), num_samples=8, burn_in=1, steps=1, log=os.path.join(tmp, "oq.csv"))    # a one-shot iterable
     st.fit(data, epochs=9, pos_batch_size=2, neg_batch_size=2, k=1, lr=0.05, callbacks=[me, oe, mq, oq])
     fails = []
     try:
